@@ -1,5 +1,23 @@
 import Mp.DecProofs
+import Mp.CmpFunc
+import Mp.AnyOfProofs
+import Mp.FactChecks
 /-! C05 — property theorems (proved in the imported modules; statements are checked there, axioms audited here). -/
 #print axioms Mp.Dec.cmp_spec
 #print axioms Mp.Dec.trichotomy
 #print axioms Mp.Dec.cmp_repr_independent
+#print axioms Mp.less_iff
+#print axioms Mp.greater_iff
+#print axioms Mp.equal_iff
+#print axioms Mp.lessOrEqual_iff
+#print axioms Mp.greaterOrEqual_iff
+#print axioms Mp.notEqual_iff
+#print axioms Mp.relations_coherent
+#print axioms Mp.relations_repr_independent
+#print axioms Mp.equal_num_vs_other
+#print axioms Mp.equal_str
+#print axioms Mp.equal_bool
+#print axioms Mp.equal_str_vs_other
+#print axioms Mp.anyOf_dec_iff
+#print axioms Mp.anyOf_str_iff
+#print axioms Mp.FactChecks.params_order
